@@ -103,7 +103,13 @@ class Drillhole(Points):
                 value = value.tolist()
 
             if isinstance(value, str):
-                value = [float(n) for n in re.findall(r"-?\d+\.\d+", value)]
+                # every spelling str(float) produces: digits with or without a decimal point, an exponent
+                value = [
+                    float(n)
+                    for n in re.findall(
+                        r"[-+]?(?:\d+\.?\d*|\.\d+)(?:[eE][-+]?\d+)?", value
+                    )
+                ]
 
             if len(value) != 3:
                 raise ValueError("Origin must be a list or numpy array of len (3,).")
